@@ -245,6 +245,11 @@ func (en *Engine) verifyUnit(u *UnitInfo) *UnitResult {
 		st.assume("(not (= self nilF))")
 		x.hdr["self"] = x.self
 	}
+	if u.Lit != nil && u.Spec != nil && u.Spec.Hint != "" && u.Natural != u.Spec.Hint {
+		// the contract reached this literal by position only: its name hint does not match any more. A failed obligation
+		// then says that the contract has to be re-attached, not that the code is wrong.
+		st.approx = fmt.Sprintf("closure contract bound by position: hint %q does not match the literal's natural name %q", u.Spec.Hint, u.Natural)
+	}
 	x.world(st)
 	x.entry = st.snapshot()
 	x.entry.pc = nil
